@@ -262,7 +262,7 @@ fn gen_cbr(kind: &Kind, ctx: &Ctx, rng: &mut Rng) -> (CbrCase, Vec<u8>, usize) {
         }
     }
     let base: usize = if high { (*rng.pick(&[1usize << 31, (1usize << 31) + (1 << 30)])) & !mask } else { 0 };
-    let data = ring_view(&stream, n, lg, tail);
+    let data = ring_view(&stream, n, lg, tail, base, rng.chance(1, 2));
     let blk0 = n - num_bytes;
     let last_insert_len = if rng.chance(1, 3) { (rng.below(20) as usize).min(blk0) } else { 0 };
     let position = base + blk0;
